@@ -23,17 +23,19 @@ DATA = {
     "dupRejected": [["1", "a"], ["2", "b"], ["1", "c"]],
     # delimited storage: the text itself is malformed in row 4 (see RAW); spreadsheet storage: a field error in row 4
     "lateDamage": [["1", "a"], ["2", "b"], ["3", "c"], ["y", "d"]],
+    # every row is fine; the fourth brings the fourth distinct name, one more than the DistinctCount check of the CID allows
+    "endRejected": [["1", "a"], ["2", "b"], ["3", "c"], ["4", "d"], ["5", "a"]],
 }
 RAW = {"lateDamage": '1,a\r\n2,b\r\n3,c\r\n4,"d"x\r\n5,e\r\n'}
-UNTIL = {"absent": [], "all": ["--until", "-1"], "0": ["--until", "0"], "k1": ["--until", "1"], "k2": ["--until", "2"], "k9": ["--until", "9"],
+UNTIL = {"absent": [], "all": ["--until", "-1"], "0": ["--until", "0"], "k1": ["--until", "1"], "k2": ["--until", "2"], "k4": ["--until", "4"], "k9": ["--until", "9"],
          "huge": ["--until", str(2 ** 63)]}
-LIMIT = {"absent": None, "all": None, "0": 0, "k1": 1, "k2": 2, "k9": 9, "huge": 2 ** 63}
+LIMIT = {"absent": None, "all": None, "0": 0, "k1": 1, "k2": 2, "k4": 4, "k9": 9, "huge": 2 ** 63}
 
 
 def cid_rows(storage, broken=False, header=0):
     fmt = {"csv": "delimited", "ods": "ods", "xlsx": "excel"}[storage]
     rows = [["D", "Format", fmt]] + ([["D", "Header", str(header)]] if header else []) + [["F", "id", "", "", "", "Integer" if not broken else "NoSuchType", "0...99"],
-            ["F", "name", "", "X"], ["C", "id must be unique", "IsUnique", "id"]]
+            ["F", "name", "", "X"], ["C", "id must be unique", "IsUnique", "id"], ["C", "few names", "DistinctCount", "name <= 3"]]
     return rows
 
 
@@ -145,7 +147,7 @@ def api_verdicts(report, paths, storage):
                                             if storage == "csv" else [])
     for kind, header in cases:
         for until, limit in LIMIT.items():
-            bad_at = {"accepted": 0, "shares": 0, "fieldRejected": 2, "dupRejected": 3, "lateDamage": 4}[kind]
+            bad_at = {"accepted": 0, "shares": 0, "fieldRejected": 2, "dupRejected": 3, "lateDamage": 4, "endRejected": 4}[kind]
             if kind == "lateDamage" and storage == "csv":
                 # (the container is malformed: met iff it lies within the header rows plus the rows the limit lets through)
                 expected = limit is None or (limit > 0 and bad_at <= header + limit)
@@ -211,6 +213,40 @@ def named_pipes(report, paths, folder):
                 return
 
 
+def line_breaks_in_cells(report, folder):
+    """
+    'Exits 0 if and only if every file is accepted by the programmatic API' -- for delimited files whose quoted cells hold
+    line breaks (CR LF, CR, LF) under fields whose declared length or allowed characters tell the three apart. The oracle is
+    the API on the same file.
+    """
+    import cutplace
+    from cutplace import errors
+    cids = {"short": [["D", "Format", "delimited"], ["D", "Encoding", "utf-8"], ["F", "id"], ["F", "note", "", "", "...6"]],
+            "exact": [["D", "Format", "delimited"], ["D", "Encoding", "utf-8"], ["F", "id"], ["F", "note", "", "", "7"]],
+            "nolf": [["D", "Format", "delimited"], ["D", "Encoding", "utf-8"], ["D", "Allowed characters", "13, 32...126"], ["F", "id"], ["F", "note"]],
+            "unique": [["D", "Format", "delimited"], ["D", "Encoding", "utf-8"], ["F", "id"], ["F", "note"], ["C", "notes differ", "IsUnique", "note"]]}
+    files = {"crlf": b'1,"abc\r\nde"\r\n2,"x"\r\n', "cr": b'1,"abc\rde"\r\n2,"x"\r\n', "lf": b'1,"abc\nde"\r\n2,"x"\r\n',
+             "both": b'1,"abc\r\nde"\r\n2,"abc\nde"\r\n', "crcr": b'1,"abc\rde"\r\n2,"abc\nde"\r\n', "lfends": b'1,"abc\r\nde"\n2,"x"\n'}
+    for cid_name, rows in sorted(cids.items()):
+        cid_path = os.path.join(folder, "cid_breaks_%s.csv" % cid_name)
+        write_table(cid_path, "csv", rows)
+        for file_name, content in sorted(files.items()):
+            path = os.path.join(folder, "breaks_%s.csv" % file_name)
+            with open(path, "wb") as target:
+                target.write(content)
+            try:
+                cutplace.validate(cid_path, path)
+                expected = 0
+            except errors.DataError:
+                expected = 1
+            code = run_main(["cutplace", cid_path, path])
+            report.replayed += 1
+            if code != expected:
+                report.violation("c18", {"line_breaks": [cid_name, file_name]}, expected, code,
+                                 "csv: cutplace <CID %r> <file %r> answers %r but cutplace.validate() of the same file says %r" % (
+                                     rows[2:], content, code, expected))
+
+
 def end_checks_under_limit(report, folder):
     """
     'Exits 0 if and only if every file is accepted by the programmatic API; --until N has the same effect as the API's
@@ -245,7 +281,7 @@ def end_checks_under_limit(report, folder):
 
 def replay(behaviour, report=None):
     core.import_repo()
-    if "api" in behaviour or "pipe" in behaviour or "end_check" in behaviour:
+    if "api" in behaviour or "pipe" in behaviour or "end_check" in behaviour or "line_breaks" in behaviour:
         return []
     folder = core.workdir("c18replay")
     try:
@@ -281,6 +317,7 @@ def run(tier, report):
             if storage == "csv":
                 named_pipes(report, paths, os.path.join(folder, storage))
                 end_checks_under_limit(report, os.path.join(folder, storage))
+                line_breaks_in_cells(report, os.path.join(folder, storage))
             plain = [vec for vec in vectors if not vec.get("header")]   # (header rows: csv storage only, see Cli_header.cfg)
             chosen = vectors if storage == "csv" else (plain if tier == "thorough" else rng.sample(plain, 700))
             shapes = {}
